@@ -120,6 +120,87 @@ def suite_messages(ctx):
     return [s.run()]
 
 
+def suite_shared_encoder(ctx):
+    """ONE encoder instance for a whole sequence of messages (the model is a function of the message and the counter only): anything the
+    encoder remembers between messages besides the counter shows as a disagreement"""
+    harness.load_repo()
+    from nmea2000.encoder import NMEA2000Encoder
+    per_def = 1 if ctx["tier"] == "quick" else 3
+    msgs, rnd = decoded_messages(ctx, per_def, 73)
+    s = common.Suite("encoder-shared-instance", "one real NMEA2000Encoder instance encodes a shuffled sequence of messages of every encodable definition (all definitions of the "
+                     "multi-definition PGNs follow one another), formats mixed; per message the packets and the counter afterwards vs Enc.encode* given the counter before")
+    by_pgn = {}
+    for sfx, p, m in msgs:
+        by_pgn.setdefault(p["PGN"], []).append((sfx, p, m))
+    groups = list(by_pgn.values())
+    rnd.shuffle(groups)
+    e = NMEA2000Encoder()
+    for rounds in range(2):
+        for g in groups:
+            g = g[:]
+            rnd.shuffle(g)
+            for sfx, p, m in g:
+                mm = copy.deepcopy(m)
+                mm.priority, mm.source, mm.destination = addressing(rnd, p["PGN"])
+                fmt = rnd.choice(FORMATS)
+                seq = e.sequence_counter
+                try:
+                    if fmt == "ebyte":
+                        txt = ",".join(harness.hx(b) for b in e.encode_ebyte(mm))
+                    elif fmt == "usb":
+                        txt = ",".join(harness.hx(b) for b in e.encode_usb(mm))
+                    elif fmt == "yd":
+                        txt = ",".join(harness.hx(b) for b in e.encode_yacht_devices(mm))
+                    else:
+                        txt = _hex_text(e.encode_actisense(mm))
+                    got = f"ok {e.sequence_counter} {txt}"
+                except Exception:
+                    got = "raised"
+                s.add(f"encm {fmt} {seq} {mm.PGN} {harness.hx(mm.id.encode())} {mm.priority} {mm.source} {mm.destination} {pgncorr.field_spec(mm)}", got,
+                      f"{fmt}-{'multi' if len(g) > 1 else 'single'}-{got.split()[0]}")
+    return [s.run()]
+
+
+def monitor_shared(ctx, prop="C02"):
+    """the payload a long-lived encoder produces for a message is the payload its definition's own encode function produces
+    (which the payload-level checks of C02/C09 examine), whatever was encoded before on that instance"""
+    harness.load_repo()
+    from nmea2000 import pgns
+    from nmea2000.encoder import NMEA2000Encoder
+    msgs, rnd = decoded_messages(ctx, 2, 74)
+    efns = dict(pgncorr.encoder_functions(pgns))
+    by_pgn = {}
+    for sfx, p, m in msgs:
+        by_pgn.setdefault(p["PGN"], []).append((sfx, p, m))
+    e = NMEA2000Encoder()
+    hits, n, hist = [], 0, []
+    for g in by_pgn.values():
+        g = g[:]
+        rnd.shuffle(g)
+        for sfx, p, m in g:
+            n += 1
+            try:
+                want = efns[sfx](m)
+            except Exception:
+                want = None
+            try:
+                got = e._call_encode_function(m)
+            except Exception:
+                got = None
+            hist.append(sfx)
+            if want != got:
+                hits.append({"key": f"{prop}/encoder-history/{p['PGN']}", "what": f"{sfx}: a long-lived encoder gives {got.hex() if got else 'an error'} after encoding {hist[-4:-1]}, "
+                             f"the definition's own encoder gives {want.hex() if want else 'an error'}",
+                             "replay": {"kind": "encoder-history", "def": sfx, "before": hist[-6:-1], "fields": pgncorr.field_spec(m)}})
+                break
+    return hits, n
+
+
+def replay_shared(rp):
+    hits, n = monitor_shared({"repo": common.REPO, "seed": rp.get("seed", 0), "tier": rp.get("tier", "quick")}, rp.get("property", "C02"))
+    return not hits, (hits[0]["what"] if hits else f"{n} messages through one encoder instance agree with their definitions' encoders")
+
+
 # ----------------------------------------------------------------------------- end to end on the real code
 def _close(a, b, f):
     """same field value after a trip: numbers within half a resolution step (C09), everything else exactly"""
